@@ -13,11 +13,75 @@ import (
 	g "github.com/rminnich/go9p"
 )
 
+// tfid is what the protocol history says about a fid (independent of the framework's own
+// bookkeeping, which is what is being checked).
+type tfid struct {
+	typ    uint8
+	opened bool
+	mode   uint8
+}
+
 type oracleState struct {
 	c     *Ctx
 	valid map[uint32]int // fid -> uid, per the protocol history
+	fst   map[uint32]*tfid
 	line  string
 }
+
+// track updates the protocol-level picture of the fids from a request and its reply.
+func (o *oracleState) track(st *seqStep) {
+	if st.line != "" && !strings.HasPrefix(st.line, o.tline()) {
+		o.fst = map[uint32]*tfid{}
+	}
+	if o.fst == nil {
+		o.fst = map[uint32]*tfid{}
+	}
+	if st.reply == nil {
+		return
+	}
+	u32 := func(s string) uint32 { return uint32(atou(s, 32)) }
+	t, rc := st.msg[0], st.reply
+	switch {
+	case t == "Tattach" && rc.Type == g.Rattach:
+		if _, ok := o.fst[u32(st.msg[1])]; !ok {
+			o.fst[u32(st.msg[1])] = &tfid{typ: rc.Qid.Type}
+		}
+	case t == "Tauth" && rc.Type == g.Rauth:
+		if _, ok := o.fst[u32(st.msg[1])]; !ok {
+			o.fst[u32(st.msg[1])] = &tfid{typ: g.QTAUTH}
+		}
+	case t == "Twalk" && rc.Type == g.Rwalk:
+		f, nf := u32(st.msg[1]), u32(st.msg[2])
+		names := parseList(st.msg[3])
+		src := o.fst[f]
+		if src == nil || len(rc.Wqid) != len(names) {
+			return
+		}
+		ty := src.typ
+		if len(rc.Wqid) > 0 {
+			ty = rc.Wqid[len(rc.Wqid)-1].Type
+		}
+		if nf == f {
+			src.typ = ty
+		} else if _, ok := o.fst[nf]; !ok {
+			o.fst[nf] = &tfid{typ: ty}
+		}
+	case t == "Topen" && rc.Type == g.Ropen:
+		if x := o.fst[u32(st.msg[1])]; x != nil {
+			x.opened, x.mode = true, uint8(atou(st.msg[2], 8))
+		}
+	case t == "Tcreate" && rc.Type == g.Rcreate:
+		if x := o.fst[u32(st.msg[1])]; x != nil {
+			x.opened, x.mode, x.typ = true, uint8(atou(st.msg[4], 8)), rc.Qid.Type
+		}
+	case t == "Tclunk" && rc.Type == g.Rclunk, t == "Tremove":
+		delete(o.fst, u32(st.msg[1]))
+	}
+}
+
+var tlineStore = map[*oracleState]string{}
+
+func (o *oracleState) tline() string { return tlineStore[o] }
 
 func fidBearing(t string) bool {
 	switch t {
@@ -50,6 +114,20 @@ func (o *oracleState) c04(st *seqStep) {
 		o.valid = map[uint32]int{} // a new history began
 	}
 	o.line = st.line
+	defer func() {
+		o.track(st)
+		tlineStore[o] = st.line
+		if st.reply == nil {
+			return
+		}
+		// what the framework believes about each fid is what the history says
+		for k, x := range o.fst {
+			if vf, ok := st.after.Fids[k]; ok && (vf.Type != x.typ || vf.Opened != x.opened || (x.opened && vf.Omode != x.mode)) {
+				o.fail("fidstate", st, fmt.Sprintf("fid %d: framework has type %d opened %v mode %d, history says type %d opened %v mode %d",
+					k, vf.Type, vf.Opened, vf.Omode, x.typ, x.opened, x.mode))
+			}
+		}
+	}()
 	if st.reply == nil {
 		return
 	}
@@ -65,6 +143,15 @@ func (o *oracleState) c04(st *seqStep) {
 		if _, ok := o.valid[f]; !ok {
 			if !st.isRerr("unknown fid") || len(st.calls) > 0 {
 				o.fail("unknownfid", st, fmt.Sprintf("request on invalid fid %d got %s, calls %v", f, showFcall(st.reply), st.calls))
+			}
+		}
+	}
+	if t == "Tattach" {
+		if af := u32(st.msg[2]); af != g.NOFID {
+			if _, ok := o.valid[af]; !ok && u32(st.msg[1]) != af {
+				if _, taken := o.valid[u32(st.msg[1])]; !taken && u32(st.msg[1]) != g.NOFID && !st.isRerr("unknown fid") && !st.isRerr("unknown user") {
+					o.fail("unknownfid", st, fmt.Sprintf("Tattach with invalid afid %d got %s, calls %v", af, showFcall(st.reply), st.calls))
+				}
 			}
 		}
 	}
@@ -152,6 +239,10 @@ func (o *oracleState) c04(st *seqStep) {
 
 // ---- C05: protocol rules are enforced before the implementation is called ----
 func (o *oracleState) c05(st *seqStep) {
+	defer func() { o.track(st); tlineStore[o] = st.line }()
+	if st.line != "" && !strings.HasPrefix(st.line, o.tline()) {
+		o.fst = map[uint32]*tfid{}
+	}
 	if st.reply == nil {
 		return
 	}
@@ -173,9 +264,12 @@ func (o *oracleState) c05(st *seqStep) {
 	u32 := func(s string) uint32 { return uint32(atou(s, 32)) }
 	f := u32(st.msg[1])
 	fb, ok := st.before.Fids[f]
-	if !ok || f == g.NOFID {
+	hx := o.fst[f]
+	if !ok || f == g.NOFID || hx == nil {
 		return // C04's business
 	}
+	// the rules are evaluated on the fid state the protocol history determines
+	fb.Type, fb.Opened, fb.Omode = hx.typ, hx.opened, hx.mode
 	dir := fb.Type&g.QTDIR != 0
 	auth := fb.Type&g.QTAUTH != 0
 	msize := st.before.Msize
